@@ -434,6 +434,9 @@ func (d *Directory) mkdirWithOpts(name string, o options) (*Directory, error) {
 		default:
 			return nil, fmt.Errorf("unrecognized type: %#v", fsn)
 		}
+	} else if !errors.Is(err, os.ErrNotExist) {
+		// the entry may exist but cannot be read: do not replace it
+		return nil, err
 	}
 
 	dirobj, err := newEmptyDirectory(d.ctx, name, d, d.dagService, d.prov, o)
@@ -493,6 +496,9 @@ func (d *Directory) AddChild(name string, nd ipld.Node) error {
 	_, err := d.childUnsync(name)
 	if err == nil {
 		return ErrDirExists
+	} else if !errors.Is(err, os.ErrNotExist) {
+		// the entry may exist but cannot be read: do not replace it
+		return err
 	}
 
 	err = d.dagService.Add(d.ctx, nd)
